@@ -11,12 +11,15 @@
 // Output: TAB separated fields
 //   0 "ok"
 //   1 identity dump of the original      2 identity dump of the clone         (format: see idump* below)
-//   3 e<equals(o,c)><equals(c,o)> p<clone has no parent> w<printModel(o)==printModel(c), models only, else ->
+//   3 e<equals(o,c)><equals(c,o)> p<clone has no parent> w<printModel(o)==printModel(c) up to the order of map_variables /
+//     connection elements, models only, else ->
 //   4 dump.hpp text of the original      5 dump.hpp text of the clone
 //   with a mutation script additionally:
 //   6,7 identity dumps after the mutation   8,9 dump.hpp texts after the mutation   10 exec results joined by ','
 // A crash / exception / hang anywhere gives the single token CRASH(sig) / THROW(type) / TIMEOUT (forkrun.hpp).
+#include <algorithm>
 #include <cstdio>
+#include <cstring>
 #include <string>
 #include <vector>
 
@@ -191,6 +194,71 @@ static std::string plainDump(const EntityPtr &p, bool withConn)
     return "-";
 }
 
+// Printer text with the unordered parts in a canonical order: map_variables lines sorted inside each connection
+// element, connection elements sorted (the clone re-creates equivalences in index-stack order, so the ORDER of
+// these elements may differ from the original's while the set is the same).
+static std::string canonicalPrint(const std::string &text)
+{
+    std::vector<std::string> lines;
+    std::string cur;
+    for (char c : text) {
+        if (c == '\n') {
+            lines.push_back(cur);
+            cur.clear();
+        } else {
+            cur.push_back(c);
+        }
+    }
+    lines.push_back(cur);
+    auto starts = [](const std::string &l, const char *what) {
+        size_t i = l.find_first_not_of(' ');
+        return i != std::string::npos && l.compare(i, strlen(what), what) == 0;
+    };
+    std::vector<std::string> out;
+    std::vector<std::string> blocks;
+    size_t firstBlockAt = std::string::npos;
+    for (size_t i = 0; i < lines.size(); ++i) {
+        if (starts(lines[i], "<connection")) {
+            std::vector<std::string> maps;
+            std::string block = lines[i] + "\n";
+            size_t j = i + 1;
+            for (; j < lines.size() && !starts(lines[j], "</connection>"); ++j) {
+                maps.push_back(lines[j]);
+            }
+            std::sort(maps.begin(), maps.end());
+            for (const auto &m : maps) {
+                block += m + "\n";
+            }
+            if (j < lines.size()) {
+                block += lines[j];
+            }
+            if (firstBlockAt == std::string::npos) {
+                firstBlockAt = out.size();
+            }
+            blocks.push_back(block);
+            i = j;
+        } else {
+            out.push_back(lines[i]);
+        }
+    }
+    std::sort(blocks.begin(), blocks.end());
+    std::string r;
+    for (size_t i = 0; i < out.size(); ++i) {
+        if (i == firstBlockAt) {
+            for (const auto &b : blocks) {
+                r += b + "\n";
+            }
+        }
+        r += out[i] + "\n";
+    }
+    if (firstBlockAt == out.size()) {
+        for (const auto &b : blocks) {
+            r += b + "\n";
+        }
+    }
+    return r;
+}
+
 static std::vector<std::string> newSlotsInTextOrder(const std::string &text, size_t n0)
 {
     std::vector<std::string> out;
@@ -267,7 +335,7 @@ static std::string runCase(const std::string &line)
     fl += " w";
     if (kindOf(orig) == Kind::Model) {
         auto pr = Printer::create();
-        fl += pr->printModel(std::static_pointer_cast<Model>(orig)) == pr->printModel(std::static_pointer_cast<Model>(cl)) ? "1" : "0";
+        fl += canonicalPrint(pr->printModel(std::static_pointer_cast<Model>(orig))) == canonicalPrint(pr->printModel(std::static_pointer_cast<Model>(cl))) ? "1" : "0";
     } else {
         fl += "-";
     }
